@@ -34,8 +34,9 @@ Public surface
     canon(ast)     canonical string usable as a dictionary key
     walk / get / replace      generic positions ("paths") inside an AST
     statements(depth, ...)    all conforming statements up to a depth bound (deterministic order)
+    random_statement(rnd, depth)   a seeded random conforming statement over deeper nestings
     violations(ast)           every single-rule violation of a statement at every position
-    mutations(ast)            every one-leaf mutation of a statement (literal, operator, alias, direction, column,
+    mutations(ast)            every one-leaf mutation of a statement (literal, operator, alias (renamed / dropped), direction, column,
                               join kind, set kind, reference name, table, limit)
     COLLIDING_SAME_KIND / COLLIDING_CROSS_KIND   literal values whose CPython hashes collide
 
@@ -514,7 +515,7 @@ def feature_pool(origin, rich=False):
         if rich:
             arith += [op('sub', n1, lit(2.5)), op('mod', n0, lit(2)), op('abs', n0), cast(n0, 'float')]
             preds += [op('ne', n0, lit(-1)), op('lt', n1, lit(3)), op('ge', n0, lit(0)), op('notnull', n0)]
-            aggs += [agg('min', n1), agg('avg', n0)]
+            aggs += [agg('min', n1)]  # avg / division are never generated: their result kind is not documented
             aggpreds += [op('le', agg('sum', n1), lit(10))]
     if strs:
         preds.append(op('eq', strs[0], lit('a')))
@@ -639,6 +640,28 @@ def statements(depth=1, rich=False, cap=None, rnd=None):
     if cap is not None and len(out) > cap:
         out = sorted(rnd.sample(out, cap), key=canon) if rnd else out[:cap]
     return out
+
+
+def random_origin(rnd, depth):
+    """A random origin nesting up to ``depth`` levels of joins / references of statements (seeded ``random.Random``)."""
+    tabs = list(TABLES.values())
+    if depth <= 0 or rnd.random() < 0.25:
+        return rnd.choice(tabs)
+    if rnd.random() < 0.4:
+        return ref(random_statement(rnd, depth - 1, named_only=True), rnd.choice(['u', 'v', 'w']))
+    left = random_origin(rnd, depth - 1)
+    right = rnd.choice(tabs + [ref(rnd.choice(tabs), 'z')])
+    conds = join_conditions(left, right)
+    if conds and rnd.random() < 0.8:
+        return join(left, right, rnd.choice(JOINS[:4]), rnd.choice(conds))
+    return join(left, right, 'cross')
+
+
+def random_statement(rnd, depth=3, named_only=False):
+    """A random conforming query over a random origin of the given nesting depth."""
+    origin = random_origin(rnd, depth)
+    pool = [q for q in queries(origin, rich=True) if not named_only or (q['sel'] and named(q))]
+    return rnd.choice(pool)
 
 
 def _foreign_for(feature_node, root_source):
@@ -820,6 +843,7 @@ def mutations(stmt, colliding=True):
                     yield label, path, replace(stmt, path, new)
             elif sort == 'alias':
                 yield 'alias', path, replace(stmt, path + ('name',), node['name'] + '_')
+                yield 'unalias', path, replace(stmt, path, node['args'][0])
             elif sort == 'op' and node['op'] in _OP_SWAP:
                 yield 'operator', path, replace(stmt, path + ('op',), _OP_SWAP[node['op']])
                 if len(node['args']) == 2 and canon(node['args'][0]) != canon(node['args'][1]):
